@@ -4,7 +4,7 @@
    Proofs/SchedCycleDue.v (forced close touches no flag; reference model).
    See manifest.d/C05.json for what is full / partial. *)
 From Hio Require Import Base.Prelude Base.AMap Base.Time Model.Sched Proofs.SchedFrame Proofs.SchedLife Proofs.SchedTop
-  Proofs.SchedCycleTick Proofs.SchedCycleDue Proofs.SchedCycleStop Proofs.SchedCycleDone.
+  Proofs.SchedCycleTick Proofs.SchedCycleDue Proofs.SchedCycleStop Proofs.SchedCycleDone Proofs.SchedCycleFlag.
 
 (* Vocabulary (Proofs/SchedCycleStop.v), all for the root scheduler:
      entered fuel p        the state after Doist.enter, in which the cycle loop starts
@@ -173,6 +173,53 @@ Proof.
 Qed.
 Print Assumptions C05_done_flags_preserved.
 
+(* ------------------------------------------------------------------ *)
+(* 4b. The exact flag rule.  FULL for every program without a doer numbered 0,
+   every time instance, in the final state of every run that stayed within its
+   budgets (oof = false).  With l = the lifecycle events of leaf i, newest first:
+     l = []                               (never entered)        flag <> True
+     l = Exit :: Clean :: Recur^n Enter.. (finished by itself)   flag = done_after kind r False,
+                                                                  step n of its script being `return r`
+     any other l (open, force-closed, raised, interrupted)       flag = False
+   i.e. False from enter on, the returned value exactly when the doer finished on
+   its own.  (flag_ok is exactly this three-way case distinction.) *)
+Theorem C05_flags_exact :
+  forall (T : Type) (TT : Time T) (cycles fuel : nat) (p : prog T) (i : id) k sc,
+    get (p_defs p) 0%N = None -> oof (do_run cycles fuel p) = false ->
+    get (p_defs p) i = Some (FLeaf k sc) ->
+    let s := do_run cycles fuel p in
+    match evs i s with
+    | [] => get_done s i <> Some true
+    | Exit :: Clean :: rest =>
+        exists n older r, rest = repeat Recur n ++ Enter :: older /\
+                          f_out (nth n sc default_step) = OReturn r /\
+                          get_done s i = done_after k r (Some false)
+    | _ => get_done s i = Some false
+    end.
+Proof. intros T TT cycles fuel p i k sc R O Lf. exact (do_run_flags cycles fuel p R O i k sc Lf). Qed.
+Print Assumptions C05_flags_exact.
+
+(* ... preserved by every interpreter function from any state (XInv = out of
+   budget, or the rule holds for every leaf; proved for all eleven functions at
+   once, Proofs/SchedCycleFlag.v) *)
+Theorem C05_flags_exact_preserved :
+  forall (T : Type) (TT : Time T) (tk : T) (D : amap (fdef T)) (fuel : nat) (s : st T) (i sid : id),
+    XInv D s ->
+    XInv D (fst (gen_send tk fuel s i)) /\ XInv D (gen_close tk fuel s i) /\
+    XInv D (fst (recur_pass tk fuel s sid)) /\ XInv D (close_own tk fuel s sid) /\
+    XInv D (fst (gen_start tk fuel (set_done s i (Some false)) i)).
+Proof.
+  intros T TT tk D fuel s i sid L.
+  destruct (xinv_allf tk D fuel) as (Ist & _ & Isd & Icl & Ico & _ & _ & _ & _ & Irp & _).
+  split; [|split; [|split; [|split]]].
+  - destruct (gen_send tk fuel s i) as [s' r] eqn:E. eapply Isd; eassumption.
+  - now apply Icl.
+  - destruct (recur_pass tk fuel s sid) as [s' r] eqn:E. eapply Irp; eassumption.
+  - now apply Ico.
+  - destruct (gen_start tk fuel (set_done s i (Some false)) i) as [s' r] eqn:E. eapply Ist; eassumption.
+Qed.
+Print Assumptions C05_flags_exact_preserved.
+
 (* enter (Doist.enter, DoDoer.enter, extend): done := False before the doer starts *)
 Theorem C05_enter_sets_false :
   forall (T : Type) (TT : Time T) (tk : T) (f : nat) (s : st T) (sid i : id) rest,
@@ -249,7 +296,9 @@ Example C05_example_limit :
   oof (do_run 50 100 p) = false /\ tyme (do_run 50 100 p) = 16%Z /\
   get_done (do_run 50 100 p) 0%N = Some false /\
   get_done (do_run 50 100 p) 1%N = Some true /\ get_done (do_run 50 100 p) 4%N = None /\
-  get_done (do_run 50 100 p) 5%N = Some false.
+  get_done (do_run 50 100 p) 5%N = Some false /\
+  evs 1%N (do_run 50 100 p) = [Exit; Clean; Recur; Recur; Enter] /\
+  evs 5%N (do_run 50 100 p) = [Exit; Cease; Recur; Recur; Recur; Enter].
 Proof.
   cbv zeta. split; [reflexivity|]. split; [reflexivity|]. split; [vm_compute; reflexivity|].
   split. { intros j Hj. destruct j as [|[|[|j]]]; try lia; vm_compute; reflexivity. }
